@@ -1648,8 +1648,29 @@ impl ASN1Value {
                 enumerated: _,
                 enumerable: e,
             } => {
-                if let Some(v) = find_tld_or_enum_value_by_name(identifier, e, tlds) {
-                    *self = v;
+                // The referenced value may itself be defined by reference to another
+                // value: follow the chain (bounded, in case the references form a cycle)
+                let mut name = e.clone();
+                for _ in 0..=tlds.len() {
+                    match find_tld_or_enum_value_by_name(identifier, &name, tlds) {
+                        Some(ASN1Value::ElsewhereDeclaredValue {
+                            identifier: next,
+                            parent: None,
+                            module,
+                        }) if next != name => {
+                            *self = ASN1Value::ElsewhereDeclaredValue {
+                                identifier: next.clone(),
+                                parent: None,
+                                module,
+                            };
+                            name = next;
+                        }
+                        Some(v) => {
+                            *self = v;
+                            break;
+                        }
+                        None => break,
+                    }
                 }
             }
             _ => {}
